@@ -6,7 +6,7 @@ import sys
 import threading
 import time
 
-from .common import VERIF, HarnessError, Scratch, log
+from .common import OUT_DIR, VERIF, HarnessError, Scratch, log
 
 KNOWN_PATH = os.path.join(VERIF, "known_findings.json")
 
@@ -31,7 +31,7 @@ class Ctx:
         self.replay = replay  # dict from replay.json or None
         self.scratch = Scratch(pid)
         if replay is None:
-            shutil.rmtree(os.path.join(VERIF, "replays", pid), ignore_errors=True)
+            shutil.rmtree(os.path.join(OUT_DIR, "replays", pid), ignore_errors=True)
         self.t0 = time.time()
         self._lock = threading.Lock()
         self.evaluations = 0
@@ -108,7 +108,7 @@ class Ctx:
             return None
         import re
         cname = re.sub(r"[^A-Za-z0-9_.+=-]+", "_", str(case if case is not None else n))[:80]
-        rdir = os.path.join(VERIF, "replays", self.pid, f"case-{cname}-{n}")
+        rdir = os.path.join(OUT_DIR, "replays", self.pid, f"case-{cname}-{n}")
         shutil.rmtree(rdir, ignore_errors=True)
         os.makedirs(rdir, exist_ok=True)
         meta = {"property": self.pid, "tier": self.tier, "seed": self.seed, "case": case,
@@ -184,8 +184,8 @@ class Ctx:
         if len(self.fingerprints) < 2:
             # Evidence schema needs >=2; only reachable when violations were found.
             coverage["distinct_nontrivial"] = len(self.fingerprints)
-        os.makedirs(os.path.join(VERIF, "evidence"), exist_ok=True)
-        path = os.path.join(VERIF, "evidence", f"{self.pid}.json")
+        os.makedirs(os.path.join(OUT_DIR, "evidence"), exist_ok=True)
+        path = os.path.join(OUT_DIR, "evidence", f"{self.pid}.json")
         tmp = path + ".tmp"
         with open(tmp, "w") as f:
             json.dump(ev, f, indent=1, default=str)
